@@ -181,6 +181,9 @@ def gen_history(rng, f, ch, ty, lowzero, nops, depth_seed, route):
         else:
             emit("close %s" % h)
             h = opn("rw")
+    if route != "vio" and rng.random() < 0.4 and len(A.frames) > 1:
+        # truncate as the LAST thing before close (nothing is written afterwards that would repair a stale end-of-data)
+        do_trunc(h)
     emit("close %s" % h)
     # a fresh open sees exactly the final frame sequence
     h = opn("r")
